@@ -199,6 +199,16 @@ PROPS = {
         trusted=["modelled, not verified: Go select / channel close semantics, sync.Mutex; the textual instrumenter announces every lock/unlock site of the CURRENT inmem.go with its function name and ordinal (WaitForVersionChange#1 = check, #2 = ctx.Done path, #3 = expiry path)", "C07Exec.handle_sound / replay_reach: every accepted trace is a Waiters.Step execution"],
         explanation="C07.return_sound, no_lost_wakeup, table_exact, no_bookkeeping_left, cancel_isolated, wake_enabled for any number of waiters/keys/writers and every interleaving of the critical sections",
     ),
+    "C09": dict(
+        lean=["GolibsVerif.Props.C09", "GolibsVerif.Props.C09Exec", "GolibsVerif.Props.Lin"],
+        seq=[],
+        go_cmds=("seq", "conc"),
+        conc=[dict(comp="lruconc", driver="lrutrace", decisive=lambda d: d["op"].startswith("mon C09") or d["op"].startswith("ret ") or d["op"].startswith("dels "))],
+        rule="cases = executions of 2..4 REAL goroutines on one ECache (capacities 1..3, key mapping identity or pk%2, 2..3 keys) under a controlled scheduler: the create function is a gate, so a creation blocks until the scheduler lets it succeed (with a fresh value) or fail; actions = {start GetOrCreate(k) / Remove(k) / Clear on an idle caller, release a pending creation as success or failure}; after every action the system settles (each caller at a create gate, blocked on another caller's in-flight channel — goroutine-stack inspection — or returned); every critical section of ecache.go (announced by the instrumented lock, with resident entries in recency order and the in-flight keys as seen under the lock), every create begin/end, every delete callback and every returned value become trace events which the Lean driver replays through Lru.Conc.Exec; at the end all creations are released, a Clear is issued and created-vs-deleted is balanced; non-trivial = a call was made while another call's creation was in flight; distinct by hash of the event list",
+        assumptions=["a panicking create function is out of scope", "the create function and the delete callback do not call back into the cache"],
+        trusted=["modelled, not verified: sync.Mutex, channel close wakes all receivers; the instrumenter announces the lock sites of the CURRENT ecache.go (GetOrCreate#1/#2, Remove#1, Clear#1)", "C09Exec.handle_sound / replay_reach: every accepted trace is an Lru.Conc.Step execution"],
+        explanation="C09.single_flight (at most one creator per key; in-flight table exact), size_le_cap, step_simulates (every step is invisible or is the linearization point of one call and acts exactly like the sequential Lru.EC operation — forward simulation; with LinThm this gives linearizability), accounting (created = deleted + resident + unpublished at every state), waiter_enabled",
+    ),
 }
 
 # ------------------------------------------------------------------------------------------------
@@ -226,6 +236,7 @@ MANIFEST_TEXT = {
 }
 
 MANIFEST_TEXT.update({
+    "C09": _t("Lean proofs on the N-caller transition system of ecache.go: single-flight (at most one creation per key in progress, in-flight table exact), size <= capacity, step-wise forward simulation to the sequential LRU model (results, evictions and callbacks of each linearization point equal the sequential operation's), exact accounting of created/deleted/resident/unpublished values; tied to the code by replaying real executions (instrumented critical sections, gated create function, delete callbacks) through the executable model, proved sound w.r.t. the step relation", "Lean 4 invariant + forward-simulation proofs over an N-process transition system + trace refinement of real executions"),
     "C07": _t("Lean proofs on a small-step model of inmem's WaitForVersionChange + mutators (any number of waiters, keys, writers): verdict soundness, no lost wake-up (a waiter parked on an open channel implies the record still has the awaited version and the channel is the key's current waiter record), exact waiter counts, empty table when nobody waits, isolation of a cancelling waiter; tied to the code by replaying the real critical sections (instrumented lock + goroutine attribution + table snapshots) through the executable model, proved sound w.r.t. the step relation", "Lean 4 inductive-invariant proofs over a small-step model + trace refinement of real critical sections"),
     "C02": _t("Lean: generic theorem that an object whose operations each take effect in one atomic step is linearizable in step order (real-time respecting, sequentially legal), contract theorems for all histories (fresh versions, at most one CAS winner per version, one winning creator, losers change nothing); in-memory backend: regenerated skeleton fact (each method = one lock region) + instrumented critical-section order replayed by the Lean driver; Redis: every explored concurrent history gets a linearization witness that the Lean driver validates against the contract, incl. forced WATCH/EXEC races. Unbounded for the in-memory backend; per-history certification for the Redis multi-command operations", "Lean 4 linearizability theorem for atomic-step objects + contract proofs + Lean-validated linearization witnesses of real concurrent histories"),
     "C20": _t("Lean proof on a lexical path / small file-system model that UnzipToFolder creates files and directories only inside the destination for ANY archive, and that ZipFolder∘UnzipToFolder reproduces exactly the selected files (path and content); tied to files.go by a differential run on a sandboxed real file system (hostile archives, random trees, all filter/recursive/spelling combinations) with Go-side confinement and round-trip monitors", "Lean 4 proofs over a path/file-system model + model/code correspondence on the real file system"),
@@ -235,6 +246,5 @@ MANIFEST_TEXT.update({
 })
 
 NOT_CLAIMED = {
-    "C09": "in progress (concurrent LRU model + tie not built yet)",
     "C13": "in progress (worker-pool model + tie not built yet)",
 }
